@@ -138,6 +138,8 @@ class CopulaMassOracle:
             l, r = self.trunc[i]
             if x == math.inf or x == -math.inf:
                 v = 0.0
+            elif x == 0 and self.alpha[i] >= 0 and l <= 0 <= r:
+                v = math.inf          # infinite activity: nu((0, inf)) = inf
             elif x >= 0:
                 a, b = max(x, l), r
                 v, e = (0.0, 0.0) if a >= b else Q.integrate_xn(self.dens[i], a, b, 0, self.br[i], self.alpha[i])
